@@ -1,7 +1,8 @@
 (* Prop_C05.v — C05: every hold is released exactly once, in its own mode, by its holder.
    Call-level theorems (fault-free worlds, every shape); `eff` includes that every event emitted is clean:
    no release by a non-holder / in the wrong mode (RBad) is ever issued. *)
-From HL Require Import Base Model Shape Algo Api OpsLemmas Lemmas ShapeLemmas ApiLemmas QuietLemmas Check Monitors Pf_Calls Pf_Acct Pf_Hist Pf_Hist5.
+From HL Require Import Base Model Shape Algo Api OpsLemmas Lemmas ShapeLemmas ApiLemmas QuietLemmas Check Monitors Conc Pf_Calls Pf_Acct Pf_Hist Pf_Hist5.
+From HL Require WpMain.
 
 Theorem C05_guard_drop_exact :
   forall t m items w, quiet w -> NoDup (locks_of (gleaves items)) -> held_all t m (gleaves items) (w_raw w) = true ->
@@ -73,8 +74,18 @@ Example C05_every_history_nonvacuous :
   mon_C05 ex_hist5 (model_obs ex_hist5) = true.
 Proof. vm_compute. repeat split. Qed.
 
+
+(* interleaved model, every schedule: when every thread has finished, every lock is free *)
+Theorem C05_every_schedule_all_released :
+  forall b sched l, WpMain.wfB b = true ->
+  let sc := bs_sc b in
+  let s := fst (run_sched (bs_wp b) (sc_env sc) (sc_nlocks sc) (binit b) sched) in
+  all_over s = true -> l < sc_nlocks sc -> w_raw (b_w s) l = raw_free.
+Proof. exact WpMain.every_schedule_all_released. Qed.
+
 Print Assumptions C05_guard_drop_exact.
 Print Assumptions C05_collection_unlock_exact.
 Print Assumptions C05_every_history.
 Print Assumptions C05_every_history_partial.
 Print Assumptions C05_hold_accounting.
+Print Assumptions C05_every_schedule_all_released.
